@@ -1199,7 +1199,8 @@ def reduce_(v: Variable, kind, dim=None):
     ovar = None if v._v is None else np.empty(kshape, dtype=object)
     av = None if v._v is None else v._v.transpose(perm)
     for idx in np.ndindex(kshape):
-        items = list(a[idx].reshape((-1, *v.elem))) if v.elem else list(a[idx].flat)
+        sub = np.asarray(a[idx], dtype=object) if not isinstance(a[idx], np.ndarray) else a[idx]
+        items = list(sub.reshape((-1, *v.elem))) if v.elem else list(sub.flat)
         n = len(items)
         if kind in ('all', 'any'):
             if v._dtype != DType.bool:
@@ -1212,7 +1213,7 @@ def reduce_(v: Variable, kind, dim=None):
             out[idx] = s
             if ovar is not None:
                 t = R.lift(0)
-                for it in av[idx].flat:
+                for it in np.asarray(av[idx], dtype=object).flat:
                     t = t + it
                 ovar[idx] = t
         elif kind == 'mean':
@@ -1222,7 +1223,7 @@ def reduce_(v: Variable, kind, dim=None):
             out[idx] = s / n if n else C.NAN
             if ovar is not None:
                 t = R.lift(0)
-                for it in av[idx].flat:
+                for it in np.asarray(av[idx], dtype=object).flat:
                     t = t + it
                 ovar[idx] = t / (n * n)
         elif kind in ('min', 'max'):
